@@ -25,6 +25,9 @@ def check(chk, thorough=False):
     chk.run('C16.l', 'R-SCHEMA', 'a null in the place of an endpoint ID is refused on decode (the AAD re-encodes the primary block and the security source: null would re-encode as dtn:none and still decrypt) (= C08.e clause)', lambda ob: __import__('sa.props.c08', fromlist=['eid_null_refused']).eid_null_refused(tree, ob), floor=1)
     chk.run('C16.m', 'R-GUARD', 'block data is regenerated from a parsed payload only when there is none: a recovered (possibly empty) plaintext is not overwritten by a stale payload (= C02.d)', lambda ob: __import__('sa.props.c02', fromlist=['c02d']).c02d(tree, ob), floor=3)
     chk.run('C16.n', 'R-ORDER', 'CRCs are made final after the TX chain has encrypted the targets, directly before the encode (= C08.a)', lambda ob: __import__('sa.props.c08', fromlist=['c08a']).c08a(tree, ob), floor=3)
+    chk.run('C16.p', 'R-SCHEMA', 'a bundle protected by a BCB is encrypted once, as a whole: the security steps do not run again for the fragments it is cut into (else reassembly never yields the ciphertext that was produced) (= C05.e)', lambda ob: __import__('sa.props.c05', fromlist=['c05e']).c05e(tree, ob), floor=3)
+    chk.run('C16.q', 'R-PAIR', 'ciphertext in transit is left alone: the encoded data of a block is dropped only where its parsed payload was edited (an encrypted extension block has none) (= C05.g)', lambda ob: __import__('sa.props.c05', fromlist=['c05g']).c05g(tree, ob), floor=1)
+    chk.run('C16.r', 'R-ESCAPE', 'a payload that is ciphertext under the admin flag stays opaque data whatever way it fails to parse: the handler around the record parse is broad (= C02.h)', lambda ob: __import__('sa.props.c02', fromlist=['c02h']).c02h(tree, ob), floor=1)
     chk.run('C16.o', 'R-TYPE', 'ciphertext taken from a reassembled bundle reaches the COSE library as bytes: the byte-string field normalises a bytearray (folded m2i)', lambda ob: c16o(tree, ob), floor=1)
     chk.run('C16.d', 'R-FLOW', 'BCB uses the same external AAD construction as BIB (= C03.a/b on apply_bcb)', lambda ob: (c03a(tree, ob, 'apply_bcb'), c03b(tree, ob)), floor=8)
 
